@@ -54,6 +54,12 @@ esl_gam_pdf(double x, double mu, double lambda, double tau)
 
   if (y < 0.) return 0.;
 
+  if (x == mu) {		/* avoid 0 * log(0) = NaN for tau = 1 */
+    if      (tau <  1.) return eslINFINITY;
+    else if (tau >  1.) return 0.;
+    else if (tau == 1.) return lambda;       /* special case, exponential */
+  }
+
   esl_stats_LogGamma(tau, &gamtau);
   val  = ((tau*log(lambda) + (tau-1.)*log(x-mu)) - gamtau) - y;
   return exp(val);
@@ -74,6 +80,12 @@ esl_gam_logpdf(double x, double mu, double lambda, double tau)
   double val;
 
   if (y < 0.) return -eslINFINITY;
+
+  if (x == mu) {		/* avoid 0 * log(0) = NaN for tau = 1 */
+    if      (tau <  1.) return  eslINFINITY;
+    else if (tau >  1.) return -eslINFINITY;
+    else if (tau == 1.) return log(lambda);  /* special case, exponential */
+  }
 
   esl_stats_LogGamma(tau, &gamtau);
   val = ((tau*log(lambda) + (tau-1.)*log(x-mu)) - gamtau) - y;
